@@ -17,3 +17,11 @@ func (h *TwoPartyHandler) VerifCurrentRound() round.Session {
 	defer h.mtx.Unlock()
 	return h.round
 }
+
+// VerifBroadcastHash exposes the echo-broadcast hash this party computed for a round (overlay only): an adversary that
+// equivocates knows what each victim expects.
+func (h *MultiHandler) VerifBroadcastHash(n round.Number) []byte {
+	h.mtx.Lock()
+	defer h.mtx.Unlock()
+	return h.broadcastHashes[n]
+}
